@@ -292,18 +292,18 @@ func VH_C18_FaultWhileClosing() {
 }
 
 // Isolation at the level of the reactor: the real eventloop.run() with the real Poller.Polling over a scripted batch
-// "both connections readable" (either order), ONE injected failure somewhere among the system calls of the batch, then
+// "both connections readable" (either order), up to two injected failures among the system calls of the batch, then
 // the shutdown task. The loop keeps going after the failing event; the other connection receives its bytes intact in
 // one OnTraffic, answers them, and is closed only by the shutdown (nil error); the failed one sees one OnClose(err).
 //
 //verif: mode=int unwind=6
-func VH_C18_ReactorBatchOneFault() {
+func VH_C18_ReactorBatchFaults() {
 	et := vNondetBool("et")
 	w := vNewWorld(et, 1<<20)
 	c1 := w.vOpenConn(vConnFD, "c1", false, false)
 	c2 := w.vOpenConn(vConn2FD, "c2", false, false)
 	vk.MaxReads, vk.MaxWrites = 1, 2
-	vk.FaultBudget = 1
+	vk.FaultBudget = vCfg("batch_faults", 2) // a second failure may hit the close sequence of the failed connection
 	p1 := vNondetBytes("p1", 2)
 	p2 := vNondetBytes("p2", 2)
 	vk.S[vConnFD].Pending = p1
@@ -343,7 +343,7 @@ func VH_C18_ReactorBatchOneFault() {
 	for i := 0; i < 2; i++ {
 		g := w.h.g(conns[i])
 		vAssert("C18.batch.closed_exactly_once", g.opens == 1 && g.closes == 1 && g.trafficAfterClose == 0 && w.vClosedOK(conns[i], fds[i]))
-		if vk.FaultCount > 0 && vk.FaultFD == fds[i] {
+		if vk.FaultedFD[fds[i]] {
 			vAssert("C18.batch.failed_connection_sees_an_error", !g.closeErrNil)
 		} else {
 			// untouched by the other connection's failure: full inbound and outbound integrity, closed by shutdown only
